@@ -339,6 +339,8 @@ class Round:
         self.cur_pop = self.cur_slide = None
         self.last_err_head = None
         self.err_head = None  # head whose statement raised OUTSIDE slide (head-changed callback, _start_flow, _create_event_reference)
+        self.failed_start = None  # token of an instance that could not be created while its StartFlow event was popped (+ its reports)
+        self.failed_pushes = []
         name = getattr(event, "name", None) or (event.get("type") if isinstance(event, dict) else None)
         args = getattr(event, "arguments", None) or (event if isinstance(event, dict) else {})
         T = [["ev", self.kind(name, args)]]
@@ -390,7 +392,22 @@ class Round:
         self._keys = set(state.flow_states.keys())
         self._pop_event = event
 
+    def start_failed(self, flow_id):
+        """create_flow_instance raised while the StartFlow event was processed (bad default value expression, incomplete event): on the
+        token machine the instance is created and dies at once; its terminal events are the reports (ColangError, FlowFailed) pushed
+        before the pop ends"""
+        g = self.idx.get(flow_id)
+        if g is None or self.cur_pop is None:
+            return
+        self.failed_start = ["head", g, 1, False]
+        self.failed_pushes = []
+        self.cur_pop.append(list(self.failed_start))
+        self.cur_pop.append(["ev", "plain"])
+
     def pop_end(self, state):
+        if self.failed_start is not None:
+            self.step(self.failed_start, self.failed_pushes)
+            self.failed_start, self.failed_pushes = None, []
         ev = self._pop_event
         if ev.name != "StartFlow" or ev.arguments.get("flow_id") not in self.idx:
             return
@@ -412,7 +429,9 @@ class Round:
     # -- pushes -----------------------------------------------------------------------------------------------------
     def push(self, event):
         k = self.kind(event.name, event.arguments)
-        if self.ctx:
+        if self.failed_start is not None and event.name in ("ColangError", "FlowFailed"):
+            self.failed_pushes.append(["ev", k])
+        elif self.ctx:
             self.ctx[-1]["pushes"].append(["ev", k])
         elif event.name == "UnhandledEvent" and self.cur_pop is not None:
             self.cur_pop.append(["ev", "unhandled"])
